@@ -259,6 +259,10 @@ func wellFormedDownsampled(in [][]aggrChk) bool {
 var aggrNames = [5]string{"count", "sum", "min", "max", "counter"}
 
 func execC40(c *hlib.Ctx, tok []string) string {
+	return guarded(c, func() string { return execC40Body(c, tok) })
+}
+
+func execC40Body(c *hlib.Ctx, tok []string) string {
 	if len(tok) != 2 || tok[0] != "cm.merge" {
 		return "bad-op"
 	}
@@ -373,7 +377,7 @@ func genAggrSeries(r *hlib.Rand, n int, t0, step int64, holeP int, cut int, valB
 
 func genC40(c *hlib.Ctx) {
 	r := c.R
-	n := c.N(160, 6000)
+	n := budget(c, 160, 2500)
 	for i := 0; i < n; i++ {
 		step := []int64{300000, 3600000, 60000}[r.Intn(3)]
 		t0 := r.I64Range(1, 10_000_000)
@@ -430,7 +434,7 @@ func genC40(c *hlib.Ctx) {
 		}
 	}
 	// not judged (recorded, compared with the model): aggregates absent in some chunks
-	for i := 0; i < c.N(40, 1500); i++ {
+	for i := 0; i < budget(c, 40, 500); i++ {
 		step := int64(300000)
 		a := genAggrSeries(r, r.Range(1, 200), r.I64Range(1, 1000000), step, 0, pickInt(r, 120, 30), 0)
 		b := genAggrSeries(r, r.Range(1, 200), r.I64Range(1, 1000000), step, 0, pickInt(r, 120, 30), 500)
